@@ -42,6 +42,13 @@ def pack_boundary(rng):
     big = gens.hdr(bits=0x8180, an=3) + gens.raw_name([b"pad"]) + b"\0" + struct.pack(">HHIH", 16, 1, 60, 17000) + bytes(17000)
     big += rec([b"late", b"example"], [1, 1, 1, 1]) + rec([b"late", b"example"], [2, 2, 2, 2])
     out.append(("beyond3fff", big))
+    # a name FIRST written exactly at / around offset 0x4000 (the first offset a 14-bit pointer cannot express) and used again
+    for start in (16382, 16383, 16384, 16385):
+        L = start - 27
+        m = gens.hdr(bits=0x8180, an=4) + gens.raw_name([b"pad"]) + b"\0" + struct.pack(">HHIH", 16, 1, 60, L) + bytes(L)
+        assert len(m) == start
+        m += rec([b"edge", b"example"], [1, 1, 1, 1]) + rec([b"edge", b"example"], [2, 2, 2, 2]) + rec([b"www", b"edge", b"example"], [3, 3, 3, 3])
+        out.append(("at%d" % start, m))
     for n in (9, 10, 11, 12, 13, 64, 126, 127):
         out.append(("deep%d" % n, gens.deep_chain_msg(n)))
     return out
@@ -89,6 +96,11 @@ def c09_pack_gen(rng, tier):
         for s in sizes:
             out.append("s%d c=%d size=%d msg=%s" % (k, c, s, gens.hx(m)))
             k += 1
+    # the compression-table boundary catalogue (shared with C02) under size limits: large messages, names first seen at
+    # / beyond offset 0x4000, deep chains — truncated at the limits the listeners use and around their own length
+    for t, b in pack_boundary(rng):
+        for s in (512, 1232, 4096, 16384, 16400, 32768, 65535, max(1, len(b) - 1), len(b), len(b) + 11):
+            out.append("b_%s_s%d c=1 size=%d msg=%s" % (t, s, s, gens.hx(b)))
     return out
 
 
